@@ -242,8 +242,9 @@ type c06Env struct {
 	log    []c06Cmd
 	faults []*c06Fault
 	db     *c06DB
-	qAtInj int64 // db.queries when the first failure of the current op was injected (-1 none)
-	isDown bool  // outage: every command on every node gets its connection dropped without a reply
+	qAtInj int64  // db.queries when the first failure of the current op was injected (-1 none)
+	onGet  func() // called once when the next observed GET arrives (before it is answered)
+	isDown bool   // outage: every command on every node gets its connection dropped without a reply
 	drops  int64
 }
 
@@ -331,7 +332,14 @@ func (e *c06Env) hook(node int, c *server.Peer, cmd string, args []string) bool 
 		e.qAtInj = e.db.q()
 	}
 	e.log = append(e.log, rec)
+	var onGet func()
+	if cmd == "GET" {
+		onGet, e.onGet = e.onGet, nil
+	}
 	e.mu.Unlock()
+	if onGet != nil {
+		onGet()
+	}
 	if rec.Injected {
 		c.WriteError("ERR c06 injected redis failure")
 		return true
@@ -403,17 +411,85 @@ type c06Sys struct {
 	cc     CachedConn
 	db     *c06DB
 	prefix string
+	ctx    context.Context // nil: the plain entry points; else the *Ctx entry points with this request context
 }
+
+func (s c06Sys) with(ctx context.Context) c06Sys { s.ctx = ctx; return s }
+
+func (s c06Sys) getCache(id int64) (c06Row, error) {
+	var row c06Row
+	if s.ctx != nil {
+		return row, s.cc.GetCacheCtx(s.ctx, s.pk(id), &row)
+	}
+	return row, s.cc.GetCache(s.pk(id), &row)
+}
+
+// c06DoneCtx is a request context that is already past its deadline.
+type c06DoneCtx struct{ done chan struct{} }
+
+func newC06ExpiredCtx() c06DoneCtx {
+	c := c06DoneCtx{done: make(chan struct{})}
+	close(c.done)
+	return c
+}
+func (c c06DoneCtx) Deadline() (time.Time, bool) { return time.Time{}, false }
+func (c c06DoneCtx) Done() <-chan struct{}       { return c.done }
+func (c c06DoneCtx) Err() error                  { return context.DeadlineExceeded }
+func (c c06DoneCtx) Value(any) any               { return nil }
 
 type c06Topo struct {
 	Kind    string `json:"kind"` // nodeconn | conf1 | cluster2 | cluster3
 	Weights []int  `json:"weights,omitempty"`
-	Expire  int    `json:"expire_s"`
-	NFE     int    `json:"notfound_expire_s"`
+	Expire  int    `json:"expire_s"`          // effective expiry the oracles use
+	NFE     int    `json:"notfound_expire_s"` // effective not-found expiry
+	// how the expiry is configured when not simply WithExpire(Expire): "zero" = WithExpire(0)
+	// (an unset config field forwarded), "neg" = WithExpire(-3s), "unset" = option not given.
+	// All three mean the documented defaults: 7 days / 1 minute.
+	ExpireCfg string `json:"expire_cfg,omitempty"`
+	NFECfg    string `json:"notfound_expire_cfg,omitempty"`
+}
+
+const (
+	c06DefaultExpire = 7 * 24 * 3600
+	c06DefaultNFE    = 60
+)
+
+// c06Boundary picks a configuration boundary for the two expiries (and fixes the effective values).
+func c06Boundary(tp *c06Topo, expireCfg, nfeCfg string) {
+	tp.ExpireCfg, tp.NFECfg = expireCfg, nfeCfg
+	if expireCfg != "" {
+		tp.Expire = c06DefaultExpire
+	}
+	if nfeCfg != "" {
+		tp.NFE = c06DefaultNFE
+	}
+}
+
+func c06Options(tp c06Topo) []cache.Option {
+	var opts []cache.Option
+	switch tp.ExpireCfg {
+	case "zero":
+		opts = append(opts, cache.WithExpire(0))
+	case "neg":
+		opts = append(opts, cache.WithExpire(-3*time.Second))
+	case "unset":
+	default:
+		opts = append(opts, cache.WithExpire(time.Duration(tp.Expire)*time.Second))
+	}
+	switch tp.NFECfg {
+	case "zero":
+		opts = append(opts, cache.WithNotFoundExpire(0))
+	case "neg":
+		opts = append(opts, cache.WithNotFoundExpire(-3*time.Second))
+	case "unset":
+	default:
+		opts = append(opts, cache.WithNotFoundExpire(time.Duration(tp.NFE)*time.Second))
+	}
+	return opts
 }
 
 func c06Build(env *c06Env, tp c06Topo, db *c06DB, prefix string) c06Sys {
-	opts := []cache.Option{cache.WithExpire(time.Duration(tp.Expire) * time.Second), cache.WithNotFoundExpire(time.Duration(tp.NFE) * time.Second)}
+	opts := c06Options(tp)
 	var cc CachedConn
 	nodes := 1
 	switch tp.Kind {
@@ -449,7 +525,7 @@ func c06PrimaryID(primary any) (int64, error) {
 func (s c06Sys) findOne(id int64) (c06Row, error) {
 	var row c06Row
 	key := s.pk(id)
-	err := s.cc.QueryRow(&row, key, func(conn sqlx.Conn, v any) error {
+	query := func(conn sqlx.Conn, v any) error {
 		s.db.enter("pk:" + key)
 		defer s.db.leave("pk:" + key)
 		if s.db.failing() {
@@ -461,8 +537,11 @@ func (s c06Sys) findOne(id int64) (c06Row, error) {
 		}
 		*v.(*c06Row) = r
 		return nil
-	})
-	return row, err
+	}
+	if s.ctx != nil {
+		return row, s.cc.QueryRowCtx(s.ctx, &row, key, func(_ context.Context, conn sqlx.Conn, v any) error { return query(conn, v) })
+	}
+	return row, s.cc.QueryRow(&row, key, query)
 }
 
 func (s c06Sys) findByIndex(field, val string) (c06Row, error) {
@@ -473,10 +552,11 @@ func (s c06Sys) findByIndex(field, val string) (c06Row, error) {
 		key = s.emailKey(val)
 		look = s.db.byEmail
 	}
-	err := s.cc.QueryRowIndex(&row, key, func(primary any) string {
+	keyer := func(primary any) string {
 		id, _ := c06PrimaryID(primary)
 		return s.pk(id)
-	}, func(conn sqlx.Conn, v any) (any, error) {
+	}
+	indexQuery := func(conn sqlx.Conn, v any) (any, error) {
 		s.db.enter("idx:" + key)
 		defer s.db.leave("idx:" + key)
 		if s.db.failing() {
@@ -488,7 +568,8 @@ func (s c06Sys) findByIndex(field, val string) (c06Row, error) {
 		}
 		*v.(*c06Row) = r
 		return r.ID, nil
-	}, func(conn sqlx.Conn, v, primary any) error {
+	}
+	primaryQuery := func(conn sqlx.Conn, v, primary any) error {
 		id, err := c06PrimaryID(primary)
 		if err != nil {
 			return err
@@ -504,8 +585,13 @@ func (s c06Sys) findByIndex(field, val string) (c06Row, error) {
 		}
 		*v.(*c06Row) = r
 		return nil
-	})
-	return row, err
+	}
+	if s.ctx != nil {
+		return row, s.cc.QueryRowIndexCtx(s.ctx, &row, key, keyer,
+			func(_ context.Context, conn sqlx.Conn, v any) (any, error) { return indexQuery(conn, v) },
+			func(_ context.Context, conn sqlx.Conn, v, primary any) error { return primaryQuery(conn, v, primary) })
+	}
+	return row, s.cc.QueryRowIndex(&row, key, keyer, indexQuery, primaryQuery)
 }
 
 // exec applies mutate to the database and names keys, like a generated model does.
@@ -642,13 +728,17 @@ type c06Op struct {
 	// nesting): "b:<read>" before the callback mutates the database, "a:<read>" after.
 	// <read> = findOne | findByName | getCache (of the row being written) | other (another id).
 	Nest []string `json:"nest,omitempty"`
+	// Ctx (op ctxRead): fate of the request context handed to the *Ctx read entry point:
+	// canceled-before | expired-before | cancel-in-flight (cancelled when the GET reaches redis)
+	Ctx string `json:"ctx,omitempty"`
 }
 
 var (
 	c06Names  = []string{"ann", "bob", "cy", "dee", "eve"}
 	c06Emails = []string{"a@x", "b@x", "c@x", "d@x", "e@x"}
-	c06Exp    = []int{7, 10, 30, 90, 3610}
-	c06NFE    = []int{3, 7, 10, 30}
+	c06Exp    = []int{1, 7, 10, 30, 90, 3610}
+	c06NFE    = []int{1, 3, 7, 10, 30}
+	c06Cfgs   = []string{"zero", "neg", "unset"}
 )
 
 func c06RandTopo(r interface{ Intn(int) int }) c06Topo {
@@ -658,6 +748,14 @@ func c06RandTopo(r interface{ Intn(int) int }) c06Topo {
 		for i := 0; i < 3; i++ {
 			tp.Weights = append(tp.Weights, []int{100, 100, 30, 300}[r.Intn(4)])
 		}
+	}
+	switch r.Intn(8) { // configuration boundaries of the expiry options
+	case 0:
+		c06Boundary(&tp, c06Cfgs[r.Intn(3)], "")
+	case 1:
+		c06Boundary(&tp, "", c06Cfgs[r.Intn(3)])
+	case 2:
+		c06Boundary(&tp, c06Cfgs[r.Intn(3)], c06Cfgs[r.Intn(3)])
 	}
 	return tp
 }
@@ -936,6 +1034,94 @@ func (h *c06Hist) checkGetCache(got c06Row, err error, want c06Row, exists bool,
 	return false
 }
 
+func (e *c06Env) setOnGet(f func()) {
+	e.mu.Lock()
+	e.onGet = f
+	e.mu.Unlock()
+}
+
+// c06CacheConsulted: did a GET of this op reach redis and get answered?
+func c06CacheConsulted(log []c06Cmd) bool {
+	for _, c := range log {
+		if c.Cmd == "GET" && !c.Injected {
+			return true
+		}
+	}
+	return false
+}
+
+// ctxRead: a read through a *Ctx entry point whose request context is already cancelled /
+// past its deadline, or is cancelled while the GET is at redis. If the client refused to
+// consult the cache (no GET reached redis) that is a cache failure, not a miss: the read must
+// return an error and must not query the database. If the cache did answer, the usual rules apply.
+func (h *c06Hist) ctxRead(op c06Op, q0 int64) (bad bool) {
+	s := h.sys
+	var ctx context.Context
+	cancel := func() {}
+	switch op.Ctx {
+	case "expired-before":
+		ctx = newC06ExpiredCtx()
+	case "cancel-in-flight":
+		ctx, cancel = context.WithCancel(context.Background())
+		h.env.setOnGet(cancel)
+	default:
+		ctx, cancel = context.WithCancel(context.Background())
+		cancel()
+	}
+	fs := s.with(ctx)
+	var got, want c06Row
+	var err error
+	var exists bool
+	var keys []string
+	kind := []string{"findOne", "findByName", "getCache"}[op.D%3]
+	switch kind {
+	case "findOne":
+		got, err = fs.findOne(op.ID)
+		want, exists = h.db.byID(op.ID)
+		keys = []string{s.pk(op.ID)}
+	case "findByName":
+		got, err = fs.findByIndex("name", op.Name)
+		want, exists = h.db.byName(op.Name)
+		keys = []string{s.nameKey(op.Name)}
+		if exists {
+			keys = append(keys, s.pk(want.ID))
+		}
+	default:
+		got, err = fs.getCache(op.ID)
+		want, exists = h.db.byID(op.ID)
+		keys = []string{s.pk(op.ID)}
+	}
+	h.env.setOnGet(nil)
+	cancel()
+	q1 := h.db.q()
+	log, qi := h.env.take()
+	if h.absorb(log, "ctxRead", kind == "findByName", nil, false) {
+		return true
+	}
+	h.counts["ctx_reads_"+op.Ctx]++
+	what := fmt.Sprintf("op #%d %s", len(h.ops), vk.JSON(op))
+	if op.Ctx != "cancel-in-flight" && !c06CacheConsulted(log) {
+		h.counts["ctx_reads_refused_before_redis"]++
+		if err == nil || errors.Is(err, ErrNotFound) {
+			h.m.Violate("C06:passthrough:cache-error-swallowed:"+kind+":ctx-"+op.Ctx, h.desc(), "%s: the request context was done, no GET reached redis (the cache could not be consulted), yet the read returned %+v err=%v (database queries during op: %d)", what, got, err, q1-q0)
+			return true
+		}
+		if q1 != q0 {
+			h.m.Violate("C06:passthrough:db-queried-after-cache-error:"+kind+":ctx-"+op.Ctx, h.desc(), "%s: the cache could not be consulted (request context done) and the read fell through to the database (%d queries), err=%v", what, q1-q0, err)
+			return true
+		}
+		return false
+	}
+	if errors.Is(err, context.Canceled) || errors.Is(err, context.DeadlineExceeded) {
+		h.counts["ctx_reads_failed_with_ctx_error"]++
+		return false
+	}
+	if kind == "getCache" {
+		return h.checkGetCache(got, err, want, exists, keys[0], log)
+	}
+	return h.checkRead(kind, got, err, want, exists, keys, log, qi, q0)
+}
+
 // run executes one seeded history; returns false if a violation ended it.
 func (h *c06Hist) run(r interface {
 	Intn(int) int
@@ -943,7 +1129,7 @@ func (h *c06Hist) run(r interface {
 	s := h.sys
 	nextVer := int64(1)
 	for step := 0; step < nops; step++ {
-		x := r.Intn(122)
+		x := r.Intn(127)
 		op := c06Op{}
 		id := int64(1 + r.Intn(4))
 		name := c06Names[r.Intn(len(c06Names))]
@@ -1000,10 +1186,15 @@ func (h *c06Hist) run(r interface {
 			op = c06Op{Op: "delCache0"}
 		case x < 118:
 			op = c06Op{Op: "corrupt", ID: id, D: r.Intn(3)}
-		default:
+		case x < 122:
 			op = c06Op{Op: "dbfault", ID: id, Name: name, D: r.Intn(2)}
+		default:
+			op = c06Op{Op: "ctxRead", ID: id, Name: name, D: r.Intn(3), Ctx: []string{"canceled-before", "canceled-before", "expired-before", "cancel-in-flight"}[r.Intn(4)]}
+			if op.Ctx == "expired-before" && h.faults >= 4 { // a deadline error counts as a failure for the redis breaker
+				op.Ctx = "canceled-before"
+			}
 		}
-		if h.isDown && (op.Op == "corrupt" || op.Op == "dbfault") {
+		if h.isDown && (op.Op == "corrupt" || op.Op == "dbfault" || op.Op == "ctxRead") {
 			op = c06Op{Op: "findOne", ID: id}
 		}
 		// make writes applicable to the current database
@@ -1053,7 +1244,7 @@ func (h *c06Hist) run(r interface {
 			}
 		}
 		switch op.Op {
-		case "ff", "down", "up", "dbfault", "readNoCache", "execFail", "delCache0":
+		case "ff", "down", "up", "dbfault", "readNoCache", "execFail", "delCache0", "ctxRead":
 			fault = ""
 		}
 		if fault != "" {
@@ -1152,6 +1343,11 @@ func (h *c06Hist) run(r interface {
 				for _, mr := range h.env.mrs {
 					mr.Del(key)
 				}
+			}
+		case "ctxRead":
+			bad = h.ctxRead(op, q0)
+			if op.Ctx == "expired-before" {
+				h.faults++
 			}
 		case "dbfault":
 			f0 := h.db.failedCount()
@@ -1386,13 +1582,32 @@ func TestVerifC06TTL(t *testing.T) {
 	}
 	reps := vk.N(60, 2000)
 	idx := 0
-	for _, e := range []int{7, 10, 30, 90, 150, 3610} {
+	var tps []c06Topo
+	for _, e := range []int{1, 7, 10, 30, 90, 150, 3610} {
 		for _, kind := range []string{"nodeconn", "cluster3"} {
+			tps = append(tps, c06Topo{Kind: kind, Expire: e, NFE: c06NFE[len(tps)%len(c06NFE)]})
+		}
+	}
+	// configuration boundaries: 0 / negative / option not given => the documented defaults
+	for _, kind := range []string{"nodeconn", "conf1", "cluster3"} {
+		for _, cfg := range [][2]string{{"zero", "zero"}, {"neg", "neg"}, {"unset", "unset"}, {"zero", ""}, {"", "neg"}} {
+			tp := c06Topo{Kind: kind, Expire: 10, NFE: 3}
+			c06Boundary(&tp, cfg[0], cfg[1])
+			tps = append(tps, tp)
+		}
+	}
+	{
+		for _, tp := range tps {
+			e, kind := tp.Expire, tp.Kind
 			idx++
 			if !m.Only(idx) {
 				continue
 			}
-			tp := c06Topo{Kind: kind, Expire: e, NFE: c06NFE[idx%len(c06NFE)]}
+			reps := reps
+			if tp.ExpireCfg != "" || tp.NFECfg != "" {
+				reps = reps/3 + 1
+				m.Count("boundary_configs", 1)
+			}
 			db := newC06DB()
 			prefix := fmt.Sprintf("c06t%d:", idx)
 			env.begin(prefix, db)
@@ -1435,7 +1650,7 @@ func TestVerifC06TTL(t *testing.T) {
 			env.begin("", nil)
 			lo, hi := c06Bounds(e)
 			both := st.seen[lo*100000+int64(e)] > 0 && st.seen[hi*100000+int64(e)] > 0
-			m.Case(fmt.Sprintf("ttl-%s-%d", kind, e), both)
+			m.Case(fmt.Sprintf("ttl-%s-%d-%s-%s", kind, e, tp.ExpireCfg, tp.NFECfg), both || tp.ExpireCfg != "" || tp.NFECfg != "")
 			m.Count("ttl_sets_checked", st.n)
 			if m.WantSample() {
 				m.Sample(map[string]any{"topo": tp, "sets_checked": st.n, "ratio_min": st.minRatio, "ratio_max": st.maxRatio, "allowed_s": []int64{lo, hi}, "both_ends_observed": both})
@@ -1556,11 +1771,11 @@ func TestVerifC06Faults(t *testing.T) {
 		m.Inconclusive("env: %v", err)
 		return
 	}
-	rounds := vk.N(16, 400)
+	rounds := vk.N(24, 400)
 	r := m.Rand("faults")
 	for idx := 1; idx <= rounds; idx++ {
 		tp := c06RandTopo(r)
-		mode := []string{"errors", "down"}[idx%2]
+		mode := []string{"errors", "down", "ctx-canceled", "ctx-expired"}[idx%4]
 		if !m.Only(idx) {
 			continue
 		}
@@ -1586,14 +1801,25 @@ func TestVerifC06Faults(t *testing.T) {
 				return
 			}
 			env.take()
-			if mode == "errors" {
+			fs := s // the system as the failing reads see it
+			switch mode {
+			case "errors":
 				env.arm("*", -1, 1<<30)
-			} else {
+			case "down":
 				env.down()
+			case "ctx-canceled":
+				ctx, cancel := context.WithCancel(context.Background())
+				cancel()
+				fs = s.with(ctx)
+			case "ctx-expired":
+				fs = s.with(newC06ExpiredCtx())
 			}
 			restore := func() bool {
 				if mode == "errors" {
 					env.disarm()
+					return true
+				}
+				if strings.HasPrefix(mode, "ctx-") {
 					return true
 				}
 				if err := env.up(); err != nil {
@@ -1608,22 +1834,36 @@ func TestVerifC06Faults(t *testing.T) {
 				want c06Row
 				ok   bool
 			}
-			reads := []rd{
-				{"findOne:cached", func() (c06Row, error) { return s.findOne(1) }, rows[0], true},
-				{"findByName:cached", func() (c06Row, error) { return s.findByIndex("name", "ann") }, rows[0], true},
-				{"findOne:uncached", func() (c06Row, error) { return s.findOne(2) }, rows[1], true},
-				{"findByEmail:uncached", func() (c06Row, error) { return s.findByIndex("email", "b@x") }, rows[1], true},
-				{"findOne:missing", func() (c06Row, error) { return s.findOne(3) }, c06Row{}, false},
-				{"findByName:missing", func() (c06Row, error) { return s.findByIndex("name", "cy") }, c06Row{}, false},
+			mk := func(s c06Sys) []rd {
+				return []rd{
+					{"findOne:cached", func() (c06Row, error) { return s.findOne(1) }, rows[0], true},
+					{"findByName:cached", func() (c06Row, error) { return s.findByIndex("name", "ann") }, rows[0], true},
+					{"findOne:uncached", func() (c06Row, error) { return s.findOne(2) }, rows[1], true},
+					{"findByEmail:uncached", func() (c06Row, error) { return s.findByIndex("email", "b@x") }, rows[1], true},
+					{"findOne:missing", func() (c06Row, error) { return s.findOne(3) }, c06Row{}, false},
+					{"findByName:missing", func() (c06Row, error) { return s.findByIndex("name", "cy") }, c06Row{}, false},
+					{"getCache:cached", func() (c06Row, error) { return s.getCache(1) }, rows[0], true},
+				}
 			}
+			reads := mk(fs)
 			// 4 of the 6 reads under failure (breaker protection is 5 failures)
 			start := r.Intn(len(reads))
 			for i := 0; i < 4; i++ {
 				x := reads[(start+i)%len(reads)]
 				q := db.q()
 				got, err := x.f()
-				env.take()
+				flog, _ := env.take()
+				if strings.HasPrefix(mode, "ctx-") && c06CacheConsulted(flog) {
+					// the client consulted the cache despite the done context: then it is not a cache failure
+					m.Count("ctx_reads_cache_consulted", 1)
+					continue
+				}
 				m.Count("reads_under_cache_failure", 1)
+				if strings.HasPrefix(x.kind, "getCache") && errors.Is(err, ErrNotFound) {
+					restore()
+					m.Violate("C06:passthrough:cache-error-swallowed:"+x.kind+":"+mode, desc, "cache failing (%s): GetCache reported a miss instead of the failure", mode)
+					return
+				}
 				if err == nil {
 					restore()
 					m.Violate("C06:passthrough:cache-error-swallowed:"+x.kind+":"+mode, desc, "redis failing (%s): read returned %+v with nil error (database queries: %d)", mode, got, db.q()-q)
@@ -1643,7 +1883,7 @@ func TestVerifC06Faults(t *testing.T) {
 			if !restore() {
 				return
 			}
-			for _, x := range reads {
+			for _, x := range mk(s) {
 				got, err := x.f()
 				env.take()
 				if errors.Is(err, breaker.ErrServiceUnavailable) {
